@@ -41,7 +41,7 @@ def attempt(fn, td, tag):
     return exc, left
 
 
-def expect_rejected(rep, cls, desc, fn, td, tag, finding_key=None):
+def expect_rejected(rep, cls, desc, fn, td, tag, finding_key=None, also=()):
     for explicit in (True, False):
         def call(work, explicit=explicit):
             fn(os.path.join(work, "out.h5") if explicit else None)
@@ -49,7 +49,7 @@ def expect_rejected(rep, cls, desc, fn, td, tag, finding_key=None):
         case = {"class": cls, "instance": desc, "explicit_output": explicit}
         if exc is None:
             rep.violation(f"ill-posed problem accepted ({cls})", case, finding_key=finding_key)
-        elif not isinstance(exc, (ValueError, TypeError)):
+        elif not isinstance(exc, (ValueError, TypeError) + tuple(also)):
             rep.violation(f"ill-posed problem failed with {type(exc).__name__} instead of a validation error ({cls}): {exc}"[:220], case)
         if left:
             rep.violation(f"a rejected problem left files behind ({cls})", {**case, "left": left}, finding_key=finding_key)
@@ -169,6 +169,11 @@ def run(rep: common.Report, tier: str, seed: int, replay=None) -> int:
             # 7. vector potential of the wrong shape
             expect_rejected(rep, "vector potential of the wrong shape", f"dev{di} scalar field",
                             lambda out: solve(dev, out, applied_vector_potential=lambda x, y, z: np.ones((len(x) + 1, 3))), td, f"a{n}"); n += 1
+            for shp_name, shp in (("one column", lambda m: (m, 1)), ("flat", lambda m: (m,)), ("transposed", lambda m: (3, m)),
+                                  ("no columns", lambda m: (m, 0))):
+                expect_rejected(rep, "vector potential of the wrong shape", f"dev{di} callable returning {shp_name}",
+                                lambda out, shp=shp: solve(dev, out, applied_vector_potential=lambda x, y, z: 0.1 * np.ones(shp(len(x)))),
+                                td, f"a{n}", also=(IndexError,)); n += 1      # a flat array fails in the column slice: an error, nothing written
             # 5. a terminal that touches no boundary
             t_in = tdgl.Polygon("inner", points=box(0.3, 0.3, center=(0.4, 1.2)))
             try:
